@@ -235,6 +235,12 @@ def stepLine (s : St) (toks : List String) : St × List String :=
     match s.r with
     | .idle => let s' := startPoll s; (s', [s!"r {showR s'.r} {showState s'}"])
     | _ => (s, ["bad-op"])
+  -- a `Ring::poll(None)` whose `io_uring_enter` is interrupted by a signal: `Shared::enter` treats
+  -- EINTR like ETIME (wake pass, `Ok(0)`), i.e. the call is a zero-timeout poll
+  | ["blk", "polli"] =>
+    match s.r with
+    | .idle => let s' := startPoll s; (s', [s!"r {showR s'.r} {showState s'}"])
+    | _ => (s, ["bad-op"])
   | ["blk", "pollinf"] =>
     match s.r with
     | .idle => let s' := startPollT s true; (s', [s!"r {showR s'.r} {showState s'}"])
